@@ -33,8 +33,7 @@ def chain_loops(events, loss_field):
     loops = [(ev, ctx) for ev, ctx in walk(events, structural=True) if isinstance(ev, ir.Loop) and not ev.comp]
     with_loss = []
     for lp, ctx in loops:
-        if any(is_call_to(e, loss_field) and e.method is None and not any(l.comp for l in c.loops)
-               for e, c in walk(lp.body)):
+        if any(is_call_to(e, loss_field) and e.method is None for e, c in walk(lp.body)):
             with_loss.append((lp, ctx))
     inner = []
     for lp, ctx in with_loss:
